@@ -5,5 +5,5 @@ CONSTANTS
   Opts <- QOpts
   TotalUnits <- AllTotalUnits
   OneStep = TRUE
-INVARIANTS SignLaw WindowLaw DirectionLaw BalanceLaw MultipleLaw CompareLaw TotalLaw 
+INVARIANTS SignLaw WindowLaw DirectionLaw BalanceLaw MultipleLaw CompareLaw NearLaw TotalLaw 
 CHECK_DEADLOCK FALSE
